@@ -477,6 +477,32 @@ theorem pretty_text_stable_multi (cfg : Cfg) (hm : cfg.mini = false) (hi : Inden
     pretty_text_stable_multi_core cfg hm hi dt hdt kids hs hnw hmulti
   exact ⟨out1, toks2, out2, toks3, out2, h1, h2, h3, h4, h5, rfl⟩
 
+/-- **pretty³ = pretty² from any token sequence** (review M4: `pretty_text_stable` starts from the tokens of the tree): pass
+    1 may be fed ANY token sequence whose plain-parser tree is a strict single-root document (implicit closes, elements
+    left open at the end of the input), or (`…_multi`) a strict multi-root document. -/
+theorem pretty_text_stable_tokens (cfg : Cfg) (hm : cfg.mini = false) (hi : IndentWS cfg)
+    (n : Str) (st : AStore) (sc : Bool) (kids : List FNode)
+    (hs : (FNode.elem n st sc kids).Strict) (hnw : (FNode.elem n st sc kids).NoWrapper)
+    (toks : List Tok) (hnws : NoWrapperStart toks) (ps : St) (hp : Plain.feed toks = .ok ps)
+    (hroot : ps.root = some (FNode.elem n st sc kids).toNode) (hdt : DtOK ps.doctype) :
+    ∃ out1 toks2 out2 toks3 out3, format cfg toks = .ok out1 ∧ lexStrict out1 = some toks2 ∧
+      format cfg (toks2.map Tok.ofToken) = .ok out2 ∧ lexStrict out2 = some toks3 ∧
+      format cfg (toks3.map Tok.ofToken) = .ok out3 ∧ out3 = out2 := by
+  obtain ⟨out1, toks2, out2, toks3, h1, h2, h3, h4, h5⟩ :=
+    pretty_text_stable_core_open cfg hm hi n st sc kids hs hnw toks hnws ps hp hroot hdt
+  exact ⟨out1, toks2, out2, toks3, out2, h1, h2, h3, h4, h5, rfl⟩
+
+theorem pretty_text_stable_tokens_multi (cfg : Cfg) (hm : cfg.mini = false) (hi : IndentWS cfg)
+    (kids : List FNode) (hs : StrictL kids) (hnw : NoWrapperL kids) (hmulti : topScan false kids = none)
+    (toks : List Tok) (hnws : NoWrapperStart toks) (ps : St) (hp : Plain.feed toks = .ok ps)
+    (hroot : ps.root = some (FNode.elem wrapper {} false kids).toNode) (hdt : DtOK ps.doctype) :
+    ∃ out1 toks2 out2 toks3 out3, format cfg toks = .ok out1 ∧ lexStrict out1 = some toks2 ∧
+      format cfg (toks2.map Tok.ofToken) = .ok out2 ∧ lexStrict out2 = some toks3 ∧
+      format cfg (toks3.map Tok.ofToken) = .ok out3 ∧ out3 = out2 := by
+  obtain ⟨out1, toks2, out2, toks3, h1, h2, h3, h4, h5⟩ :=
+    pretty_text_stable_multi_core_open cfg hm hi kids hs hnw hmulti toks hnws ps hp hroot hdt
+  exact ⟨out1, toks2, out2, toks3, out2, h1, h2, h3, h4, h5, rfl⟩
+
 /-- **C12a on the output text, multi-root.**  As `pretty_text_layout_tokens`, for any token sequence whose plain-parser
     tree is the invisible wrapper around the strict top-level blocks `kids`: the output lexes, the tags are balanced, and
     at every position the layout law holds with depth recomputed from the tokens alone — top-level elements at depth 0
@@ -719,6 +745,31 @@ example : ∃ out body, format (mkCfg .mini .dflt false) (strictToksM (some (str
     (plain_feed_strictToksM (some (str "doctype html")) (by decide) _ multiKids_strict multiKids_multi) _ _ _ _ rfl
     (by decide) (strict_wrapperElem _ multiKids_strict) (by decide)
   ⟨out, body, h1, h2, h4⟩
+
+/-- `pretty_text_stable_tokens` applies to `openTailToks` (implicit close, two elements left open) -/
+example : ∃ out1 toks2 out2 toks3 out3, format (mkCfg .pretty .dflt false) openTailToks = .ok out1 ∧
+    lexStrict out1 = some toks2 ∧ format (mkCfg .pretty .dflt false) (toks2.map Tok.ofToken) = .ok out2 ∧
+    lexStrict out2 = some toks3 ∧ format (mkCfg .pretty .dflt false) (toks3.map Tok.ofToken) = .ok out3 ∧ out3 = out2 :=
+  pretty_text_stable_tokens (mkCfg .pretty .dflt false) rfl (by decide)
+    _ _ _ _ (by simp only [FNode.Strict, StrictL]; decide)
+    (by simp only [FNode.NoWrapper, NoWrapperL]; decide) openTailToks (by decide) _ rfl
+    (show _ = some openTailTree.toNode from rfl) trivial
+/-- a multi-root token sequence with an implicit close and an unclosed element: `a<ul><li>x</ul><p>y` -/
+def multiOpenToks : List Tok :=
+  [.data (str "a"), .start (str "ul") [], .start (str "li") [], .data (str "x"), .end_ (str "ul"), .start (str "p") [],
+   .data (str "y")]
+def multiOpenKids : List FNode :=
+  [.tok (.data (str "a")), .elem (str "ul") {} false [.elem (str "li") {} false [.tok (.data (str "x"))]],
+   .elem (str "p") {} false [.tok (.data (str "y"))]]
+example : ∃ out1 toks2 out2 toks3 out3, format (mkCfg .pretty .dflt false) multiOpenToks = .ok out1 ∧
+    lexStrict out1 = some toks2 ∧ format (mkCfg .pretty .dflt false) (toks2.map Tok.ofToken) = .ok out2 ∧
+    lexStrict out2 = some toks3 ∧ format (mkCfg .pretty .dflt false) (toks3.map Tok.ofToken) = .ok out3 ∧ out3 = out2 :=
+  pretty_text_stable_tokens_multi (mkCfg .pretty .dflt false) rfl (by decide) multiOpenKids
+    (by simp only [multiOpenKids, FNode.Strict, StrictL]; decide)
+    (by simp only [multiOpenKids, FNode.NoWrapper, NoWrapperL]; decide) (by decide) multiOpenToks (by decide) _ rfl
+    (show _ = some (FNode.elem wrapper {} false multiOpenKids).toNode from rfl) trivial
+example : okIs (format (mkCfg .pretty .dflt false) multiOpenToks)
+    "a\n<ul >\n  <li >x\n  </li>\n</ul>\n<p >y\n</p>" = true := by decide +kernel
 
 /-- the texts in question: pass 1, and pass 2 = pass 3 (what the model's formatter and lexer compute) -/
 example : okIs (format (mkCfg .pretty .dflt false) (strictToks (some (str "DOCTYPE html")) stableTree))
